@@ -58,7 +58,8 @@ def run_shards(prop, shards, jobs, default_timeout):
                     json.dump(sh, f)
                 p = subprocess.Popen(
                     [env.PYTHON, "-m", "vt.worker", prop, sf, of],
-                    cwd=env.VERIF_ROOT, env=env.child_env(), stdout=subprocess.PIPE, stderr=subprocess.STDOUT,
+                    cwd=env.VERIF_ROOT, env=env.child_env({"PYTHONHASHSEED": str(sh["hashseed"])} if "hashseed" in sh else None),
+                    stdout=subprocess.PIPE, stderr=subprocess.STDOUT,
                 )
                 running.append((i, sh, p, of, time.time()))
             still = []
@@ -255,6 +256,10 @@ def run_replay(path):
     with open(path) as f:
         case = json.load(f)
     prop = case["property"]
+    hs = case.get("hashseed")
+    if hs is not None and os.environ.get("PYTHONHASHSEED") != str(hs):
+        # the case was observed in an interpreter with this string hash seed: replay it in one
+        return subprocess.run([env.PYTHON, "-m", "vt.check", "--replay", path], cwd=env.VERIF_ROOT, env=dict(os.environ, PYTHONHASHSEED=str(hs))).returncode
     env.import_tpmstream()
     mod = importlib.import_module(f"vt.monitors.{prop.lower()}")
     from .rec import Rec
